@@ -21,10 +21,16 @@ const verifSdp = "v=0\r\no=- 0 0 IN IP4 127.0.0.1\r\ns=x\r\nc=IN IP4 0.0.0.0\r\n
 type verifConn struct {
 	net.Conn
 	out    []byte
+	msgs   [][]byte
 	closed int
 }
 
-func (c *verifConn) Write(p []byte) (int, error) { c.out = append(c.out, p...); return len(p), nil }
+func (c *verifConn) Write(p []byte) (int, error) {
+	symapi.Yield() // a context switch may happen before every write on the shared socket
+	c.out = append(c.out, p...)
+	c.msgs = append(c.msgs, append([]byte(nil), p...))
+	return len(p), nil
+}
 func (c *verifConn) Close() error                { c.closed++; return nil }
 func (c *verifConn) RemoteAddr() net.Addr        { return &net.TCPAddr{IP: net.IPv4(10, 0, 0, 1), Port: 1234} }
 func (c *verifConn) SetReadDeadline(time.Time) error { return nil }
